@@ -1,6 +1,7 @@
 /- C17 line-protocol driver (core-only). -/
 import BV.C17.Model
 import BV.C17.Headers
+import BV.C02.Model
 namespace BV.C17.Driver
 
 def pid (o : Option Nat) : String := match o with | none => "-" | some n => toString n
@@ -191,23 +192,51 @@ def runOps (s : St) (toks : List String) : String :=
 def hfRes : HF.Res → String
   | .main => "main" | .side => "side" | .orphan => "orphan"
   | .dup => "err:dup" | .prevUnknown => "err:prevunknown" | .invalidAncestor => "err:invalidancestor"
-  | .knownInvalid => "err:knowninvalid" | .badBlock => "err:badblock" | .unsupported => "unsupported"
+  | .knownInvalid => "err:knowninvalid" | .badBlock => "err:badblock"
 
-def parseDelivery (n : Nat) (s : String) : Option HF.Op :=
+/-- a delivery (`h<id>`, `b<id>`) or a restart (`r<k>`) -/
+def parseDelivery (n : Nat) (s : String) : Option (Option HF.Op) :=
   let k := (s.drop 1).toString.toNat?
   match k with
   | none => none
   | some k =>
-    if k < 1 ∨ k > n then none
-    else if s.startsWith "h" then some (.header k)
-    else if s.startsWith "b" then some (.block k)
+    if s.startsWith "r" then some none
+    else if k < 1 ∨ k > n then none
+    else if s.startsWith "h" then some (some (.header k))
+    else if s.startsWith "b" then some (some (.block k))
     else none
 
 def insertById (x : Nat × Nat × Nat) : List (Nat × Nat × Nat) → List (Nat × Nat × Nat)
   | [] => [x]
   | y :: ys => if x.1 ≤ y.1 then x :: y :: ys else y :: insertById x ys
 
-def runHF (ps : List Nat) (bad : List Nat) (ops : List HF.Op) : String :=
+/-- C02's ChainCore on the same history (work 1 per block, connect verdict = not bad): result class
+    and best tip after every step -/
+def c02Trace (P : Nat → Option Nat) (bad : List Nat) (ops : List HF.Op) : List (String × Nat) :=
+  let blk (n : Nat) : BV.C02.BlockAbs :=
+    { hash := n, parent := (P n).getD 0, work := 1, sane := true, hdrOk := true, ctxOk := true,
+      connOk := !bad.contains n }
+  let rec go (s : BV.C02.State) (ops : List HF.Op) (acc : List (String × Nat)) : List (String × Nat) :=
+    match ops with
+    | [] => acc.reverse
+    | op :: rest =>
+      let (s', r) := BV.C02.step s (match op with
+        | .header n => BV.C02.Op.header (blk n)
+        | .block n => BV.C02.Op.block (blk n))
+      let rs := match r with
+        | .main => "main" | .side => "side" | .orphan => "orphan" | .dup => "dup"
+        | .rej => "rej" | .ok => "ok" | .fail => "fail"
+      go s' rest ((rs, s'.tip) :: acc)
+  go BV.C02.init ops []
+
+/-- our result class as C02 reports it -/
+def asC02 (op : HF.Op) (r : HF.Res) : String :=
+  match op, r with
+  | .block _, .main => "main" | .block _, .side => "side" | .block _, .orphan => "orphan"
+  | .block _, .dup => "dup" | .block _, _ => "rej"
+  | .header _, .main => "main" | .header _, .side => "side" | .header _, _ => "rej"
+
+def runHF (ps : List Nat) (bad : List Nat) (ops : List (Option HF.Op)) : String :=
   let P := Spec.parentOf ps
   let nodes := List.range (ps.length + 1)
   let depths : Array Nat := nodes.foldl
@@ -218,25 +247,38 @@ def runHF (ps : List Nat) (bad : List Nat) (ops : List HF.Op) : String :=
     let fork := match HF.forkNode e s.b s.h with | some f => depth f | none => 0
     let tips := (HF.chainTips e depth nodes s.b s.h).foldr insertById []
     let tipsS := ",".intercalate (tips.map (fun t => s!"{t.1}.{t.2.1}.{t.2.2}"))
-    s!"f{fork}/{tipsS}"
-  let rec go (s : HF.State) (ops : List HF.Op) (acc : List String) : HF.State × List String :=
+    s!"{s.h.best}@{depth s.h.best}/{s.b.tip}@{depth s.b.tip}/f{fork}/{tipsS}"
+  let rec go (s : HF.State) (ops : List (Option HF.Op)) (acc : List String) (trace : List (HF.Op × HF.Res × Nat)) :
+      HF.State × List String × List (HF.Op × HF.Res × Nat) :=
     match ops with
-    | [] => (s, acc.reverse)
-    | op :: rest =>
+    | [] => (s, acc.reverse, trace.reverse)
+    | none :: rest =>
+      let s' : HF.State := { b := HF.restartB s.b, h := HF.restartH s.b }
+      go s' rest (s!"restart/{obs s'}" :: acc) trace
+    | some op :: rest =>
       let (s', r) := HF.step e s op
       let n := match op with | .header n => n | .block n => n
       let v := b01 (HF.isValidHeader e s'.b s'.h n)
-      go s' rest (s!"{hfRes r}/{s'.h.best}@{depth s'.h.best}/{s'.b.tip}@{depth s'.b.tip}/{v}/{obs s'}" :: acc)
-  let (sf, outs) := go {} ops []
+      let hv := b01 (HF.haveBlock s'.b n) ++ b01 (s'.b.orphans.contains n)
+      let root := HF.orphanRoot e s'.b (ps.length + 1) n
+      let hh := if HF.headerKnownOnBest e s'.b s'.h n then toString (depth n) else "-"
+      go s' rest (s!"{hfRes r}/{v}/{hv}/{root}/{hh}/{obs s'}" :: acc) ((op, r, s'.b.tip) :: trace)
+  let (sf, outs, trace) := go {} ops [] []
   -- final observations: the best-header chain by height, its locator, and the tip reached by
   -- delivering the blocks alone (equal to the interleaved run's tip by `headers_then_blocks…`)
   let maxH := depths.foldl Nat.max 0
   let hdrs := (List.range (maxH + 2)).map (fun (h : Nat) => pid (Spec.ancestorAt P sf.h.best (h : Int)))
   let hloc := (Spec.locatorHeights (depth sf.h.best)).map
     (fun (k : Nat) => pid (Spec.ancestorAt P sf.h.best (k : Int)))
-  let bo := (HF.run e {} (ops.filter HF.Op.isBlock)).b.tip
+  let plain := ops.filterMap id
+  let bo := (HF.run e {} (plain.filter HF.Op.isBlock)).b.tip
+  -- C02's ChainCore must tell the same story (histories without a restart)
+  let c02ok := if plain.length ≠ ops.length then true else
+    -- (a header accepted by C02's machine reads `ok` in versions that do not model the best header)
+    ((c02Trace P bad plain).zip trace).all (fun (c, t) =>
+      c.2 == t.2.2 && (c.1 == asC02 t.1 t.2.1 || (c.1 == "ok" && !t.2.1.isErr)))
   "|".intercalate (outs ++ [s!"hdrs={".".intercalate hdrs}", s!"hloc={".".intercalate hloc}",
-    s!"blocksonly={bo}@{depth bo}"])
+    s!"blocksonly={bo}@{depth bo}"] ++ (if c02ok then [] else ["c02-differs"]))
 
 def handle : List String → String
   | ["gah", h] => match h.toNat? with
